@@ -34,16 +34,73 @@ def build_elem(d, pool, core):
     if k == 'zu': return core.ucomplex(complex(d[1], d[2]), d[3])
     raise ValueError(d)
 
-def build(case):
+VIEWS2 = ['plain', 'T', 'dotT', 'F', 'slice', 'step', 'Tslice']
+VIEWS1 = ['plain', 'slice', 'step', 'rev']
+
+def make_view(elems, mode, la):
+    """(array passed to the function, base array that owns the memory).  `elems` is the LOGICAL
+    content (element [i][j] of what is passed); the memory layout differs by mode:
+    T / dotT: transpose view of a C-ordered base; F: Fortran-ordered array; slice / step: a window /
+    every second row and column of a larger base; Tslice: a window of a transposed base; rev (1-D):
+    reversed view."""
+    import numpy as np
+    from GTC.uncertain_array import UncertainArray
+    two = bool(elems) and isinstance(elems[0], list)
+    if mode in (None, 'plain'):
+        a = la.uarray(elems); return a, a
+    if not two:
+        n = len(elems)
+        if mode == 'slice':
+            base = la.uarray([91.5] + list(elems) + [92.5, 93.5]); return base[1:n + 1], base
+        if mode == 'step':
+            full = []
+            for e in elems: full += [e, 94.5]
+            base = la.uarray(full); return base[::2], base
+        if mode == 'rev':
+            base = la.uarray(list(reversed(elems))); return base[::-1], base
+        raise ValueError(mode)
+    n, m = len(elems), len(elems[0])
+    tr = [[elems[i][j] for i in range(n)] for j in range(m)]
+    if mode == 'T':
+        base = la.uarray(tr); return la.transpose(base), base
+    if mode == 'dotT':
+        base = la.uarray(tr); return base.T, base
+    if mode == 'F':
+        o = np.empty((n, m), dtype=object, order='F')
+        for i in range(n):
+            for j in range(m): o[i, j] = elems[i][j]
+        base = UncertainArray(o); return base, base
+    if mode == 'slice':
+        big = [[95.5] * (m + 3)] + [[96.5] + list(r) + [97.5, 98.5] for r in elems] + [[99.5] * (m + 3)]
+        base = la.uarray(big); return base[1:n + 1, 1:m + 1], base
+    if mode == 'step':
+        big = []
+        for r in elems:
+            row = []
+            for e in r: row += [81.5, e]
+            big.append(row); big.append([82.5] * (2 * m))
+        base = la.uarray(big); return base[::2, 1::2], base
+    if mode == 'Tslice':
+        big = [[83.5] * (n + 2)] + [[84.5] + list(r) + [85.5] for r in tr]
+        base = la.uarray(big); return base.T[1:n + 1, 1:m + 1], base
+    raise ValueError(mode)
+
+def build(case, want_bases=False):
     from GTC import core, la
     new_context(case['ctx'])
     pool = [core.ureal(x, u, independent=bool(ind)) for x, u, ind in case['pool']]
-    def arr(rows):
-        if rows is None: return None
+    def arr(rows, mode):
+        if rows is None: return None, None
         if rows and isinstance(rows[0], list) and rows[0] and isinstance(rows[0][0], list):
-            return la.uarray([[build_elem(e, pool, core) for e in r] for r in rows])
-        return la.uarray([build_elem(e, pool, core) for e in rows])
-    return pool, arr(case['a']), arr(case.get('b'))
+            elems = [[build_elem(e, pool, core) for e in r] for r in rows]
+            if not all(len(r) == len(elems[0]) for r in elems): mode = 'plain'
+        else:
+            elems = [build_elem(e, pool, core) for e in rows]
+        return make_view(elems, mode, la)
+    a, abase = arr(case['a'], case.get('a_view'))
+    b, bbase = arr(case.get('b'), case.get('b_view'))
+    if want_bases: return pool, a, b, (abase, bbase)
+    return pool, a, b
 
 def rows_of(x):
     """any result as rows of elements"""
@@ -94,11 +151,13 @@ def snapshot(x):
 
 def case_term(case):
     """run the implementation; return (gallina term of type Z, info)"""
-    pool, a, b = build(case)
+    pool, a, b, bases = build(case, want_bases=True)
     fn = case['fn']
     ra = rows_of(a); rb = rows_of(b) if b is not None else []
     A = crows(ra); B = crows(rb)
-    before = (snapshot(a), snapshot(b))
+    snap_all = lambda: (snapshot(a), snapshot(b), snapshot(bases[0]), snapshot(bases[1]),
+                        a.shape, a.strides, None if b is None else (b.shape, b.strides))
+    before = snap_all()
     info = {'exn': None, 'args_modified': False}
     try:
         r = call_impl(case, a, b)
@@ -110,7 +169,7 @@ def case_term(case):
     except Exception as ex:
         info['exn'] = type(ex).__name__
         expected = '(Err %s)' % cexn(type(ex).__name__)
-    if (snapshot(a), snapshot(b)) != before:
+    if snap_all() != before:
         info['args_modified'] = True
     n = len(ra); m = len(ra[0]) if ra else 0
     nat = lambda k: '%d%%nat' % k
@@ -268,7 +327,22 @@ def gen_case(rng, ctx, malformed=False):
         if shape[1] == '2': case['b'] = [[gen_elem(rng, kind, pool) for _ in range(p)] for _ in range(bm)]
         else: case['b'] = [gen_elem(rng, kind, pool) for _ in range(bm)]
         case['style'] = 'shape' + shape + ('-misaligned' if malformed else '')
+    add_views(rng, case)
     return case
+
+def is2d(rows):
+    return bool(rows) and isinstance(rows[0], list) and bool(rows[0]) and isinstance(rows[0][0], list)
+
+def add_views(rng, case):
+    """how the arguments are laid out in memory: half of the calls get a transpose view, a
+    Fortran-ordered array, or a window / strided / reversed view of a larger base array"""
+    for key in ('a', 'b'):
+        rows = case.get(key)
+        if rows is None: continue
+        if rng.random() < 0.5:
+            case[key + '_view'] = 'plain'
+        else:
+            case[key + '_view'] = rng.choice(VIEWS2[1:] if is2d(rows) else VIEWS1[1:])
 
 def gen_rhs(rng, kind, pool):
     """right-hand sides: zero values (with and without uncertainty) are common on purpose"""
@@ -286,7 +360,9 @@ def gen_rhs(rng, kind, pool):
 
 # ------------------------------------------------------------------ correspondence run
 def classify(case, info):
-    tags = [case['fn'], 'kind=' + case['kind'], 'n=%d' % case['n'], 'style=' + str(case.get('style'))]
+    tags = [case['fn'], 'kind=' + case['kind'], 'n=%d' % case['n'], 'style=' + str(case.get('style')),
+            'a_view=' + str(case.get('a_view'))]
+    if case.get('b') is not None: tags.append('b_view=' + str(case.get('b_view')))
     if info['exn']: tags.append('raises=' + info['exn'])
     return tags
 
@@ -355,6 +431,7 @@ def gen_oracle_case(rng):
     if fn in ('invab', 'matmul'):
         m = rng.randint(1, 3)
         case['b'] = [[rhs() for _ in range(m)] for _ in range(n)]
+    add_views(rng, case)
     return case
 
 def flat_descr(rows):
@@ -412,13 +489,14 @@ def oracle_check(case):
     import numpy as np
     from GTC import la, LU, lib
     try:
-        pool, a, b = build(case)
+        pool, a, b, bases = build(case, want_bases=True)
     except Exception:
         return None
     fn = case['fn']
     tol = 1e-8
     snap = lambda arr: None if arr is None else [(id(e), repr(e)) for e in arr.flat]
-    before = (snap(a), snap(b))
+    snap_all = lambda: (snap(a), snap(b), snap(bases[0]), snap(bases[1]))
+    before = snap_all()
     try:
         r = call_impl(case, a, b)
     except Exception as ex:
@@ -426,8 +504,8 @@ def oracle_check(case):
         return dict(case, why='%s raised %s: %s' % (fn, type(ex).__name__, ex),
                     rhs_zero_uncertain=rhs_zero_uncertain(case))
     why = None
-    if (snap(a), snap(b)) != before:
-        why = '%s modified its arguments' % fn
+    if snap_all() != before:
+        why = '%s modified its arguments (or the base array of a view)' % fn
     A = [list(row) for row in a]
     def scale_of(A_, X_):
         def f(i, j):
